@@ -18,6 +18,8 @@ pub struct TlsVal {
     key: usize,
     flavour: bool,
     owner: u64,
+    /// the loom-op flavour also owns a loom object whose `Drop` needs the execution
+    _arc: Option<loom::sync::Arc<u8>>,
 }
 
 impl TlsVal {
@@ -27,7 +29,7 @@ impl TlsVal {
         if flavour {
             loom::thread::yield_now();
         }
-        TlsVal { key, flavour, owner }
+        TlsVal { key, flavour, owner, _arc: if flavour { Some(loom::sync::Arc::new(0)) } else { None } }
     }
 }
 
@@ -96,6 +98,7 @@ pub struct LzVal {
     key: usize,
     flavour: bool,
     cell: loom::cell::UnsafeCell<u64>,
+    _arc: Option<loom::sync::Arc<u8>>,
 }
 
 impl LzVal {
@@ -107,7 +110,7 @@ impl LzVal {
             loom::thread::yield_now();
         }
         cell.with_mut(|p| unsafe { *p = 1 });
-        LzVal { key, flavour, cell }
+        LzVal { key, flavour, cell, _arc: if flavour { Some(loom::sync::Arc::new(0)) } else { None } }
     }
 }
 
